@@ -213,6 +213,17 @@ def reset_then_attach(P, R, h):
     R.ob('C18.MPT.1', ok, rel[0] if rel else h, 'unreferenced destinations are released after the attach loop', key='release-after')
     for r in rel:
         R.ob('C18.MPT.1', any(is_field(g[0], 'refcnt') and g[1] == '<' and const_of(g[2]) == 0 for g in h.guards(r.bid)), r, 'only destinations nobody references any more are released', key='release-guard')
+    # the reset value and the release test fit together: a destination left at the reset value is released, one that
+    # was attached once is not (so a destination dropped by this reload is closed now, not kept open under its old name)
+    def holds_for(g, v):
+        c = const_of(g[2])
+        return {'<': v < c, '<=': v <= c, '>': v > c, '>=': v >= c, '==': v == c, '!=': v != c}.get(g[1])
+    for r in rel:
+        gs = [g for g in h.guards(r.bid) if is_field(g[0], 'refcnt') and isinstance(const_of(g[2]), int)]
+        for s in rc:
+            c = const_of(s.ev.get('rhs'))
+            ok = isinstance(c, int) and bool(gs) and all(holds_for(g, c) for g in gs) and not all(holds_for(g, c + 1) for g in gs)
+            R.ob('C18.MPT.1', ok, s, 'a destination still at its reset count (%s) is released after the rescan, one attached once (%s) is kept' % (c, c + 1 if isinstance(c, int) else '?'), key='reset-value')
     # attaching takes a reference: log_destination_open bumps refcnt or creates
     op = P.need_fn('log_destination_open')
     inc = [s for s in op.stores() if s.ev['k'] == 'store' and is_field(s.ev['lhs'], 'refcnt') and s.ev.get('op') == '++']
@@ -255,6 +266,36 @@ def operator_fresh(P, R):
          'the range operator is assigned for every comma element before it is used (no value carried over from the previous element): %s' % sorted(sts), key='operator-fresh')
     R.obligations[-1]['function'] = p.name
     R.floor('C18.MPT.2', 2)
+
+
+def operator_scan(P, R, rule='C18.TAB.4'):
+    """Every range operator the documentation lists can be recognised: following which byte of the element the parser
+    is looking at (a set of byte values per path, refined by each comparison; `p[0]`, `*p++`, `*++p` distinguished),
+    each assignment of an operator code is reachable.  A scan that re-tests a byte already known to be `<` against
+    `=` can never see `<=`."""
+    from .. import charparse
+    p = P.need_fn('log_parse_type_sevset')
+    sw = None
+    for bid in p.reachable_blocks():
+        if any(e.label == 'case' for e in p.out[bid]):
+            c = p.term_cond(bid)
+            if is_var(c):
+                sw = c['name']
+    if sw is None:
+        R.note('%s: no operator switch in the severity-set parser; not judged' % rule)
+        return
+    res = charparse.analyse(p, '')
+    if not res:
+        R.note('%s: the severity-set parser does not scan with a character pointer; not judged' % rule)
+        return
+    before = res['before']
+    n = 0
+    for s in p.stores():
+        ev = s.ev
+        if ev['k'] == 'store' and is_var(ev.get('lhs'), sw) and ev.get('op') == '=' and isinstance(const_of(ev.get('rhs')), int):
+            n += 1
+            R.ob(rule, bool(before.get(s.key)), s, 'the operator code %s can be reached: the bytes tested on the way are consistent' % const_of(ev['rhs']), key='op-reachable:%s' % const_of(ev['rhs']))
+    R.floor(rule, 4, 'operator codes assigned in the severity-set parser')
 
 
 def wiring(P, R, h):
@@ -324,6 +365,7 @@ def run(P, R, tier):
     h = whole_entry(P, R)
     reset_then_attach(P, R, h)
     operator_fresh(P, R)
+    operator_scan(P, R)
     range_bounds(P, R)
     exact_names(P, R)
     wiring(P, R, h)
